@@ -148,7 +148,7 @@ func (r *Runner) oblige(st *State, kind, label string, goal Term, pos token.Pos)
 		// contract-level obligations that fold to true are still recorded (discharged syntactically),
 		// so that they are part of the baseline and a change that makes them non-trivial is noticed
 		switch kind {
-		case "post", "pre", "cs", "before", "nogo", "inv-init", "inv-step", "stable", "lockinv", "decr", "signal", "lostwakeup":
+		case "post", "pre", "cs", "before", "nogo", "inv-init", "inv-step", "iter", "stable", "lockinv", "decr", "signal", "lostwakeup":
 			n := r.curName + "#" + kind
 			if label != "" {
 				n += "[" + label + "]"
